@@ -38,6 +38,7 @@ type mCfg struct {
 	dur, count, max, cadd int
 	status                int
 	dispel                bool
+	flags                 []int
 	hooks                 map[string][]mAct
 }
 
@@ -51,7 +52,7 @@ func buildModCatalog() []mCfg {
 		c = append(c, mCfg{stacking: s, tick: 0, dur: 2, count: 1, max: 3, cadd: 1, status: 1, dispel: true})
 	}
 	for s := 0; s < 7; s++ {
-		c = append(c, mCfg{stacking: s, tick: 1, dur: 3, count: 0, max: 5, cadd: 1, status: 2, dispel: true})
+		c = append(c, mCfg{stacking: s, tick: 1, dur: 3, count: 0, max: 5, cadd: 1, status: 2, dispel: true, flags: [][]int{{100}, {103}, {100, 103}, nil, {101}, {103, 100}, {100}}[s]})
 	}
 	c = append(c, mCfg{stacking: 3, status: 0})                                                                                                                                        // 14: permanent, not dispellable
 	c = append(c, mCfg{stacking: 2, count: 2, status: 1, dispel: true})                                                                                                                // 15
@@ -71,6 +72,7 @@ func buildModCatalog() []mCfg {
 }
 
 // the harness session the registered closures talk to (one case at a time)
+var modRand *scriptedSource
 var modSess *modSession
 var modRegisterOnce sync.Once
 
@@ -88,13 +90,21 @@ func registerModCatalog() {
 			modifier.Register(modName(i), modifier.Config{
 				Stacking: modifier.StackingBehavior(c.stacking), TickMoment: modifier.TickMoment(c.tick),
 				Duration: c.dur, Count: float64(c.count), MaxCount: float64(c.max), CountAddWhenStack: float64(c.cadd),
-				StatusType: model.StatusType(c.status), CanDispel: c.dispel,
+				StatusType: model.StatusType(c.status), CanDispel: c.dispel, BehaviorFlags: behaviorFlags(c.flags),
 				Listeners: modifier.Listeners{OnAdd: mk("OnAdd"), OnRemove: mk("OnRemove"), OnDispel: mk("OnDispel"),
 					OnExtendDuration: mk("OnExtendDuration"), OnExtendCount: mk("OnExtendCount"), OnPropertyChange: mk("OnPropertyChange"),
 					OnPhase1: mk("OnPhase1"), OnPhase2: mk("OnPhase2")},
 			})
 		}
 	})
+}
+
+func behaviorFlags(l []int) []model.BehaviorFlag {
+	var out []model.BehaviorFlag
+	for _, f := range l {
+		out = append(out, model.BehaviorFlag(f))
+	}
+	return out
 }
 
 type stubEngine struct {
@@ -116,6 +126,8 @@ type modSession struct {
 	counter int
 	pending []int
 	depth   int
+	// the chance reported by the last ModifierAdded announcement (-1: none)
+	lastChance float64
 }
 
 func (s *modSession) scan(t key.TargetID) {
@@ -209,6 +221,10 @@ func (s *modSession) Log(e any) {
 	switch v := e.(type) {
 	case event.ModifierAdded:
 		s.out = append(s.out, modInto(wire.R("Added").I("t", int(v.Target)), v.Modifier))
+		s.lastChance = v.Chance
+	case event.ModifierResisted:
+		s.out = append(s.out, wire.R("Resisted").I("t", int(v.Target)).I("src", int(v.Source)).I("name", modNameIdx(v.Modifier)).
+			F("chance", v.Chance).F("base", v.BaseChance).F("ehr", v.EffectHitRate).F("eres", v.EffectRES).F("dres", v.DebuffRES))
 	case event.ModifierRemoved:
 		s.out = append(s.out, modInto(wire.R("Removed").I("t", int(v.Target)), v.Modifier))
 	case event.ModifierDispelled:
@@ -285,7 +301,8 @@ func (modComp) Exec(c *wire.Case, w *wire.Writer) {
 	registerModCatalog()
 	ev := &event.System{}
 	stub := &stubEval{props: map[key.TargetID]info.PropMap{}}
-	eng := &stubEngine{ev: ev, rnd: rand.New(rand.NewSource(1))}
+	modRand = &scriptedSource{fb: rand.NewSource(1)}
+	eng := &stubEngine{ev: ev, rnd: rand.New(modRand)}
 	sess := &modSession{uids: map[*modifier.Instance]int{}}
 	modSess = sess
 	logging.InitLoggers(sess)
@@ -296,8 +313,16 @@ func (modComp) Exec(c *wire.Case, w *wire.Writer) {
 	base := map[key.TargetID]info.PropMap{}
 	for id := 1; id <= 3; id++ {
 		bs := info.PropMap{prop.ATKBase: 1000, prop.ATKPercent: 0.1 * float64(id), prop.AllDamageReduce: 0.1, prop.SPDBase: 100}
+		var dres info.DebuffRESMap
+		switch id { // what the resist roll reads: unit 1 hits more surely, unit 2 resists
+		case 1:
+			bs[prop.EffectHitRate], bs[prop.EffectHitRateConvert] = 0.2, 0.1
+		case 2:
+			bs[prop.EffectRES], bs[prop.EffectRESConvert] = 0.2, 0.1
+			dres = info.DebuffRESMap{model.BehaviorFlag_STAT_CTRL: 0.5, model.BehaviorFlag_STAT_DOT: 0.25}
+		}
 		base[key.TargetID(id)] = bs
-		_ = eng.attr.AddTarget(key.TargetID(id), info.Attributes{Level: 1, HPRatio: 1, MaxEnergy: 100, BaseStats: bs, Weakness: modBaseWeak(id)})
+		_ = eng.attr.AddTarget(key.TargetID(id), info.Attributes{Level: 1, HPRatio: 1, MaxEnergy: 100, BaseStats: bs, Weakness: modBaseWeak(id), BaseDebuffRES: dres})
 	}
 	// one description (and its maps) reused for several units, as team-wide effects do
 	shared := map[string]info.PropMap{}
@@ -328,9 +353,18 @@ func (modComp) Exec(c *wire.Case, w *wire.Writer) {
 				} else {
 					st = parseStats(op.Str("stats"))
 				}
+				// the resist roll draws from the scripted generator: one number per roll
+				modRand.q = nil
+				for _, u := range op.Flts("draws") {
+					modRand.q = append(modRand.q, int64(u*(1<<63)))
+				}
+				sess.lastChance = -1
 				ok, err := sess.add(t, info.Modifier{Name: nm, Source: key.TargetID(op.Int("src")), Duration: op.Int("dur"),
 					Count: float64(op.Int("count")), MaxCount: float64(op.Int("max")), CountAddWhenStack: float64(op.Int("cadd")),
-					TickImmediately: op.Bool("imm"), Stats: st, Weakness: parseWeak(op.Str("weak"))})
+					TickImmediately: op.Bool("imm"), Stats: st, Weakness: parseWeak(op.Str("weak")), Chance: op.Flt("chance")})
+				if err == nil && ok && op.Has("chance") && op.Flt("chance") > 0 && sess.lastChance != -1 {
+					sess.out = append(sess.out, wire.R("applied").F("chance", sess.lastChance))
+				}
 				if err != nil {
 					kind := "invalid_target"
 					if strings.Contains(err.Error(), "source") {
@@ -450,7 +484,7 @@ func catOps() []*wire.Rec {
 	var out []*wire.Rec
 	for i, c := range modCatalog {
 		r := wire.R("cat").I("name", i).I("stacking", c.stacking).I("tick", c.tick).I("dur", c.dur).I("count", c.count).I("max", c.max).
-			I("cadd", c.cadd).I("status", c.status).B("dispel", c.dispel)
+			I("cadd", c.cadd).I("status", c.status).B("dispel", c.dispel).Is("flags", c.flags)
 		for _, k := range []string{"OnAdd", "OnRemove", "OnDispel", "OnExtendDuration", "OnExtendCount", "OnPropertyChange", "OnPhase1", "OnPhase2"} {
 			var parts []string
 			for _, a := range c.hooks[k] {
@@ -526,6 +560,13 @@ func (modComp) Gen(r *rand.Rand, tier string, n int) []*wire.Case {
 		wire.R("mutsnap").I("t", 1).I("p", int(prop.ATKPercent)).F("x", 5), wire.R("rm").I("t", 1).I("name", 19))
 	mk("d-weakness-union", add(1, 3, 1, 0, 0, "").S("weak", "4:1"), add(1, 10, 1, 0, 0, "").S("weak", "4:0|5:1"), add(2, 3, 1, 0, 0, "").S("weak", "6:1"), add(2, 10, 1, 0, 0, "").S("weak", "2:0"),
 		add(3, 3, 1, 0, 0, "").S("weak", "2:0|3:1"), add(3, 10, 1, 0, 0, "").S("weak", "2:1"), wire.R("rm").I("t", 1).I("name", 3), wire.R("rm").I("t", 3).I("name", 10))
+	// resist roll: source's hit rate, target's resistance, resistance by the shape's flags; the roll equal to the chance resists
+	chanceOp := func(t, name, src int, ch, draw float64) *wire.Rec {
+		return add(t, name, src, 0, 0, "").F("chance", ch).Fs("draws", []float64{draw})
+	}
+	mk("d-resist", chanceOp(3, 3, 3, 0.5, 0.4), chanceOp(3, 3, 3, 0.5, 0.5), chanceOp(3, 3, 3, 0.5, 0.6), chanceOp(3, 3, 1, 0.5, 0.6), chanceOp(3, 3, 1, 0.5, 0.65), chanceOp(3, 3, 1, 0.5, 0.7),
+		chanceOp(2, 3, 3, 1, 0.69), chanceOp(2, 3, 3, 1, 0.7), chanceOp(2, 7, 3, 1, 0.34), chanceOp(2, 7, 3, 1, 0.36), chanceOp(2, 8, 1, 1, 0.6), chanceOp(2, 8, 1, 1, 0.7), chanceOp(2, 9, 1, 1, 0.4),
+		chanceOp(1, 0, 2, 0, 0.99), chanceOp(1, 0, 2, -1, 0.99), chanceOp(1, 7, 9, 1, 0.1), chanceOp(9, 7, 1, 1, 0.1), chanceOp(1, 0, 1, 1, 0.1), chanceOp(1, 0, 1, 1, 0.1))
 	mk("d-stat-parts", add(1, 3, 1, 0, 0, conv), add(1, 10, 1, 0, 0, flat), add(2, 3, 1, 0, 0, spd), add(2, 10, 1, 0, 0, spdconv), add(3, 3, 1, 0, 0, spdconv), wire.R("rm").I("t", 2).I("name", 3))
 	mk("d-stat-clamp", add(1, 3, 1, 0, 0, negpct), add(1, 10, 1, 0, 0, flat), add(2, 3, 1, 0, 0, negflat), add(2, 10, 1, 0, 0, flat), add(3, 3, 1, 0, 0, negpct+"|"+flat), wire.R("rm").I("t", 1).I("name", 3))
 	mk("d-shared-empty-desc", add(1, 3, 1, 0, 0, "").S("share", "e"), add(2, 3, 1, 0, 0, "").S("share", "e"), wire.R("instprop").I("t", 1).I("uid", 1).I("p", int(prop.ATKPercent)).F("x", 0.5),
@@ -557,6 +598,10 @@ func (modComp) Gen(r *rand.Rand, tier string, n int) []*wire.Case {
 				}
 				if r.Intn(4) == 0 {
 					op.S("weak", pick(r, "2:1", "2:0|3:1", "6:1", "6:0", "3:1|4:1", "2:0", "7:1|6:0"))
+				}
+				if r.Intn(4) == 0 {
+					// an application that can be resisted: base chance and the roll
+					op.F("chance", pick(r, 0.5, 1, 0.25, 1.5, 0, -1)).Fs("draws", []float64{pick(r, 0.0, 0.1, 0.3, 0.5, 0.65, 0.9, 0.9999999999999999)})
 				}
 				if st != "" && r.Intn(3) == 0 {
 					op.S("share", pick(r, "a", "b")+st)
